@@ -58,11 +58,31 @@ fn compiled(exp: &lipe_find_parser::ast::Expression, opt: &lipe_find_parser::Run
     }
 }
 
+/// A request that does not return within the limit (FPREPLAY_LIMIT_MS, default 20 s) is reported as `HANG` and the process exits
+/// with status 3 (a stuck thread cannot be stopped); the caller restarts the replayer on the remaining requests.
+static STARTED_MS: std::sync::atomic::AtomicU64 = std::sync::atomic::AtomicU64::new(0);
+
+fn now_ms() -> u64 {
+    std::time::SystemTime::now().duration_since(std::time::UNIX_EPOCH).map(|d| d.as_millis() as u64).unwrap_or(0)
+}
+
 fn main() {
     panic::set_hook(Box::new(|_| {}));
+    let limit: u64 = std::env::var("FPREPLAY_LIMIT_MS").ok().and_then(|v| v.parse().ok()).unwrap_or(20_000);
+    std::thread::spawn(move || loop {
+        std::thread::sleep(std::time::Duration::from_millis(200));
+        let st = STARTED_MS.load(std::sync::atomic::Ordering::SeqCst);
+        if st != 0 && now_ms().saturating_sub(st) > limit {
+            use std::io::Write;
+            println!("HANG\tno answer within {} ms", limit);
+            let _ = std::io::stdout().flush();
+            std::process::exit(3);
+        }
+    });
     let stdin = std::io::stdin();
     for line in stdin.lock().lines() {
         let line = line.unwrap();
+        STARTED_MS.store(now_ms(), std::sync::atomic::Ordering::SeqCst);
         let parts: Vec<String> = line.split('\t').map(unesc).collect();
         if parts.is_empty() {
             continue;
@@ -141,6 +161,7 @@ fn main() {
             }
             other => vec!["ERR".into(), format!("unknown request {}", other)],
         });
+        STARTED_MS.store(0, std::sync::atomic::Ordering::SeqCst);
         match res {
             Ok(fields) => println!("{}", fields.iter().map(|f| esc(f)).collect::<Vec<_>>().join("\t")),
             Err(p) => {
